@@ -73,6 +73,39 @@ def main():
             gap = rng.choice([10, 10, 10, 20])
             t1 += gap; t2 += gap
         cases.append(case([o1, o2], evs, rels=[{"rel": "same_on", "x": 1, "y": 2}]))
+    # ---- dense-time online: a reset monitor = a fresh one (new signal from time 0 after the reset)
+    import c05 as _c05
+    dcases = []
+    for i in range(n // 3):
+        S = rng.choice([1, 2])
+        ops = _c05.UNTIMED + (["onceT", "histT"] if rng.random() < 0.3 else [])
+        g = Gen(rng, vars_=rng.choice([("x",), ("x", "y")]), S=S, ops=ops, ivs=[(1, 1), (2, 2), (0, 1)], bool_atoms=True)
+        for _ in range(30):
+            phi = g.formula(rng.choice([1, 2, 2]))
+            if vars_of(phi) and not any(q["op"] in BIN2 and not vars_of(q) for q in subformulas(phi)):
+                break
+        else:
+            continue
+        vs = vars_of(phi)
+        def sig():
+            end = rng.choice([2, 4, 6])
+            return {v: gen_signal(rng, rng.choice([2, 3, 4]), t0=0, S=S, end=end) for v in vs}
+        evs = [ev_parse(1), ev_parse(2)]
+        if rng.random() < 0.2:
+            evs.append(ev_reset(1))
+        for seg in range(rng.choice([1, 1, 2])):
+            w1 = sig()
+            evs += _c05.schedule_events(w1, {v: rng.choice(_c05.splits(len(w1[v]))) for v in vs}, 1)
+            evs.append(ev_reset(1))
+        w2 = sig()
+        sc = {v: rng.choice(_c05.splits(len(w2[v]))) for v in vs}
+        evs += _c05.schedule_events(w2, sc, 1) + _c05.schedule_events(w2, sc, 2)
+        fac = rng.choice(["StlDenseTimeSpecification", "StlDenseTimeOnlineSpecification"])
+        dcases.append(case([ct_obj(phi, S, vs, factory=fac), ct_obj(phi, S, vs, factory=fac)], evs, [{"rel": "same_fn", "x": 1, "y": 2}]))
+    dtr = runner.run_cases(dcases)
+    dvs, dgen, ddist = core.validate("C10_dense", dtr, module="TraceCt")
+    rep.add_traces(dtr, dvs, dgen, ddist, nontrivial_key=lambda c: c["objs"][0]["text"] + str([e.get("w") for e in c["events"]]))
+    rep.extra["dense_cases"] = len(dcases)
     traces = runner.run_cases(cases)
     vs_, gen, dist = core.validate("C10", traces)
     rep.add_traces(traces, vs_, gen, dist, nontrivial_key=lambda c: c["objs"][0]["text"] + str([e.get("s") for e in c["events"]]))
